@@ -73,7 +73,7 @@ REQUIRED = ['mode:' + m for m in MODES] + [
     'kind:gauss', 'kind:lognorm', 'kind:trunc', 'kind:pooled', 'kind:hetero', 'noncentered', 'cov', 'cov:1d', 'cov:2d',
     'red', 'ns=last', 'ns!=last', 'last:hll', 'last:set', 'last:none', 'inner:pop', 'prior:table', 'prior:cont',
     'post:poplevel', 'post:param_map', 'post:individual', 'post:default_individual', 'decoded', 'stat:hetero_rows', 'post:param_map_cycle',
-    'user_error_model_reused']
+    'user_error_model_reused', 'seed:numpy_int']
 TINY = 1e-9
 ENV_SD = 9.0
 SEEDS = st.integers(0, 2 ** 31 - 2)
@@ -457,6 +457,7 @@ def _spec(draw):
         s['individual'] = draw(st.sampled_from([None] + common)) if all(mm['ds']['ids'] for mm in models) else None
         s['stat'] = (not pk) and gen.chance(draw, 0.5)
         s['ns'] = draw(st.integers(2, 8))
+    s['seed_form'] = draw(st.sampled_from(['int', 'int', 'np.int64', 'np.int32']))
     if mode == 'poppred' and s['stat'] and s['wm']:
         n_min = int(math.ceil((mech['n_par'] + 2.0) / n_out))
     s['times'] = _draw_times(draw, n_min)
@@ -1339,6 +1340,8 @@ class _Built(object):
         s = self.s
         mode = s['mode']
         np.random.seed(stats.derive_seed(seed, 'global') % (2 ** 32))
+        if s.get('seed_form', 'int') != 'int' and isinstance(seed, int):
+            seed = getattr(np, s['seed_form'][3:])(seed)       # integer seeds also arrive as numpy integers
         times = self.times.copy() if isinstance(self.times, np.ndarray) else list(self.times)
         kw = {}
         if self.pop_inner and s.get('cov_form', 'none') != 'none':
@@ -1676,6 +1679,8 @@ def classify(spec):
         labs.append('stat:hetero_rows')
     if s.get('user_em'):
         labs.append('user_error_model_reused')
+    if s.get('seed_form', 'int') != 'int':
+        labs.append('seed:numpy_int')
     if s['ns'] is None and not s['stat']:
         labs.append('ns=None')
     if 'pop' in s:
